@@ -10,6 +10,7 @@ import (
 	"fmt"
 	"regexp"
 	"sort"
+	"strconv"
 	"strings"
 	"testing"
 	"time"
@@ -51,11 +52,36 @@ type c19Cache struct {
 	events  []c19SetEv
 	cur     *c19SetEv
 	stray   int
+	// sizes is the harness' own account of what is stored: key -> bytes of key
+	// and value; bad is the first disagreement with what the cache reports.
+	sizes map[string]int
+	bad   string
+}
+
+// audit compares the harness' account with the Stats of the real cache.
+func (w *c19Cache) audit(when string) {
+	sum := 0
+	for _, n := range w.sizes {
+		sum += n
+	}
+	st := w.inner.Stats()
+	if w.bad == "" && (st.Size != sum || st.Count != len(w.sizes)) {
+		w.bad = fmt.Sprintf("%s: the cache reports %d bytes in %d elements, the stored keys and values make %d bytes in %d elements", when, st.Size, st.Count, sum, len(w.sizes))
+	}
+	if w.bad == "" && w.maxSize != 0 && uint(st.Size) > w.maxSize {
+		w.bad = fmt.Sprintf("%s: the cache holds %d bytes, configured size %d", when, st.Size, w.maxSize)
+	}
 }
 
 func c19NewCache(maxSize uint) *c19Cache {
-	w := &c19Cache{maxSize: maxSize}
-	w.inner = cache.New(cache.Config{EnableLRU: true, MaxSize: maxSize, OnDelete: func(k, _ []byte) {
+	w := &c19Cache{maxSize: maxSize, sizes: map[string]int{}}
+	w.inner = cache.New(cache.Config{EnableLRU: true, MaxSize: maxSize, OnDelete: func(k, v []byte) {
+		if n, ok := w.sizes[string(k)]; !ok || n != len(k)+len(v) {
+			if w.bad == "" {
+				w.bad = fmt.Sprintf("evicted element %x of %d bytes, stored with %d", k, len(k)+len(v), n)
+			}
+		}
+		delete(w.sizes, string(k))
 		if w.cur != nil {
 			w.cur.evicted = append(w.cur.evicted, string(k))
 		} else {
@@ -67,14 +93,26 @@ func c19NewCache(maxSize uint) *c19Cache {
 
 func (w *c19Cache) Set(k, v []byte) bool {
 	ev := c19SetEv{key: string(k), stored: w.maxSize == 0 || uint(len(k)+len(v)) <= w.maxSize}
+	// A stored value is 8 bytes of expiry and 32 bytes per hash.
+	if w.bad == "" && (len(k) != prefixLen || len(v) < expirySize || (len(v)-expirySize)%hashSize != 0) {
+		w.bad = fmt.Sprintf("Set(%x): key of %d bytes, value of %d bytes", k, len(k), len(v))
+	}
 	w.cur = &ev
 	r := w.inner.Set(k, v)
 	w.cur = nil
 	w.events = append(w.events, ev)
+	if ev.stored {
+		w.sizes[string(k)] = len(k) + len(v)
+	}
+	w.audit(fmt.Sprintf("after Set(%x, %d bytes)", k, len(v)))
 	return r
 }
 func (w *c19Cache) Get(k []byte) []byte { return w.inner.Get(k) }
-func (w *c19Cache) Del(k []byte)        { w.inner.Del(k) }
+func (w *c19Cache) Del(k []byte) {
+	w.inner.Del(k)
+	delete(w.sizes, string(k))
+	w.audit(fmt.Sprintf("after Del(%x)", k))
+}
 func (w *c19Cache) Clear()              { w.inner.Clear() }
 func (w *c19Cache) Stats() cache.Stats  { return w.inner.Stats() }
 
@@ -275,7 +313,21 @@ func (w *c19World) history(r *vfRand, nOps int) (h c19Hist) {
 		}
 	}
 	// Database.
+	var splicedHosts []string
 	for _, host := range hosts {
+		if chain := c19Chain(host); len(chain) >= 2 && r.Chance(1, 3) {
+			// A hash made of one chain member's prefix and another member's
+			// remaining 30 bytes: served, equal to no chain hash.
+			i := r.Intn(len(chain))
+			j := (i + 1 + r.Intn(len(chain)-1)) % len(chain)
+			sp := c19Splice(chain[i], chain[j])
+			t := hex.EncodeToString(sp[:])
+			if r.Chance(1, 8) {
+				t, _ = c19Mangle(r, sp)
+			}
+			h.DB = append(h.DB, t)
+			splicedHosts = append(splicedHosts, host)
+		}
 		subs := c19Subnames(host)
 		for _, s := range subs {
 			sum := sha256.Sum256([]byte(s))
@@ -304,6 +356,11 @@ func (w *c19World) history(r *vfRand, nOps int) (h c19Hist) {
 	vfShuffle(r, h.DB)
 	for i := 0; i < nOps; i++ {
 		switch k := r.Intn(10); {
+		case k < 2 && len(splicedHosts) > 0:
+			// Twice in a row: the second one is answered from the cache.
+			sh := vfPick(r, splicedHosts)
+			h.Steps = append(h.Steps, c19Step{Kind: "check", Host: sh}, c19Step{Kind: "check", Host: sh})
+			i++
 		case k < 7:
 			h.Steps = append(h.Steps, c19Step{Kind: "check", Host: vfPick(r, hosts), Fail: r.Chance(1, 12)})
 		case k < 9:
@@ -324,7 +381,74 @@ func (w *c19World) history(r *vfRand, nOps int) (h c19Hist) {
 	return h
 }
 
+// c19B prints a byte string for Run/C19.v: seven bytes to a primitive integer
+// (first byte lowest, the count in the three lowest bits), decoded by [ub].
+func c19B(s string) string {
+	if len(s) == 0 {
+		return "(@nil N)"
+	}
+	var b strings.Builder
+	b.WriteString("(ub ")
+	n := 0
+	for i := 0; i < len(s); i += 7 {
+		j := i + 7
+		if j > len(s) {
+			j = len(s)
+		}
+		var w uint64
+		for k := j - 1; k >= i; k-- {
+			w = w<<8 | uint64(s[k])
+		}
+		w = w<<3 | uint64(j-i)
+		b.WriteString("(IC ")
+		b.WriteString(strconv.FormatUint(w, 10))
+		b.WriteString(" ")
+		n++
+	}
+	b.WriteString("I0")
+	b.WriteString(strings.Repeat(")", n+1))
+	return b.String()
+}
+
 func c19Sum(s string) []byte { h := sha256.Sum256([]byte(s)); return h[:] }
+
+// c19Splice is the 2-byte prefix of the hash of name a followed by the
+// remaining 30 bytes of the hash of name b: for a != b a hash that the service
+// serves whenever the prefix of a is asked, that shares its prefix with one
+// hash and everything else with another, and is equal to neither.
+func c19Splice(a, b string) (h [32]byte) {
+	copy(h[:], c19Sum(b))
+	copy(h[:2], c19Sum(a)[:2])
+	return h
+}
+
+// c19Chain is what the generator takes for the names hashed for host: the
+// monitor's enumeration for well-formed hosts, every dot-aligned suffix of the
+// last four labels otherwise.
+func c19Chain(host string) (names []string) {
+	if c19WellFormedHost(host) {
+		return c19Enum(host)
+	}
+	names = c19Subnames(host)
+	if len(names) > 4 {
+		names = names[len(names)-4:]
+	}
+	return names
+}
+
+// c19SplicedOf tells whether d is made of the prefix of one chain hash and the
+// remaining bytes of another one without being a chain hash itself.
+func c19SplicedOf(d string, chain []string) bool {
+	pre, rest := false, false
+	for _, c := range chain {
+		if d == c {
+			return false
+		}
+		pre = pre || d[:2] == c[:2]
+		rest = rest || d[2:] == c[2:]
+	}
+	return pre && rest
+}
 
 func c19FloorDiv(a, b int64) int64 {
 	q := a / b
@@ -442,11 +566,11 @@ func c19Run(out *vfOut, h c19Hist, forced []string) {
 			it := toCacheItem(data)
 			hs := make([]string, 0, len(it.hashes))
 			for _, x := range it.hashes {
-				hs = append(hs, vfBytes(string(x[:])))
+				hs = append(hs, c19B(string(x[:])))
 			}
 			sort.Strings(hs)
 			cl := c19FloorDiv(it.expiry.Unix()-now+25, 100)
-			items = append(items, vfPair(vfPair(vfBytes(p), vfZ(cl)), vfList("list N", hs)))
+			items = append(items, vfPair(vfPair(c19B(p), vfZ(cl)), vfList("list N", hs)))
 		}
 		return vfList("list N * Z * list (list N)", items)
 	}
@@ -483,13 +607,32 @@ func c19Run(out *vfOut, h c19Hist, forced []string) {
 			for _, p := range st.Evict {
 				c.cache.Del([]byte(p))
 				delete(fetched, hex.EncodeToString([]byte(p)))
-				ps = append(ps, vfBytes(p))
+				ps = append(ps, c19B(p))
 			}
 			sinceEvict = true
 			ops = append(ops, vfApp("CEvict", vfList("list N", ps)))
 		case "check":
 			asked, lastQ, failNow = false, "", st.Fail
 			wc.events = nil
+			wf := c19WellFormedHost(st.Host)
+			var enum, chain []string
+			if wf {
+				enum = c19Enum(st.Host)
+			} else {
+				classes["odd-host"] = true
+			}
+			// What the cache holds under the prefixes of the chain before the
+			// check: all a cached verdict can come from.
+			cachedBefore := map[string]bool{}
+			for _, n := range enum {
+				sum := c19Sum(n)
+				chain = append(chain, string(sum))
+				if data := c.cache.Get(sum[:2]); data != nil {
+					for _, x := range toCacheItem(data).hashes {
+						cachedBefore[string(x[:])] = true
+					}
+				}
+			}
 			var (
 				blocked bool
 				err     error
@@ -502,13 +645,6 @@ func c19Run(out *vfOut, h c19Hist, forced []string) {
 			if pan != nil {
 				fail("C19/panic", fmt.Sprintf("Check(%q) panicked: %v", st.Host, pan))
 				classes["panic"] = true
-			}
-			wf := c19WellFormedHost(st.Host)
-			var enum []string
-			if wf {
-				enum = c19Enum(st.Host)
-			} else {
-				classes["odd-host"] = true
 			}
 			// Monitor: privacy of the outgoing question.
 			if asked {
@@ -530,6 +666,39 @@ func c19Run(out *vfOut, h c19Hist, forced []string) {
 					fail("C19/question-has-name", fmt.Sprintf("question %q contains the host %q", lastQ, st.Host))
 				}
 			}
+			// The full hashes this check had before it: the well-formed strings of
+			// the answer, or the cached entries of the chain's prefixes.
+			had, src := cachedBefore, "cache"
+			if asked {
+				had, src = map[string]bool{}, "fresh lookup"
+				if !st.Fail {
+					for _, s := range served {
+						if b, derr := hex.DecodeString(s); len(s) == 64 && derr == nil {
+							had[string(b)] = true
+						}
+					}
+				}
+			}
+			// Monitor: blocked only if a full hash it had is the full hash of an
+			// enumerated name (all 32 bytes: sharing the prefix with one chain
+			// hash and the rest with another does not count).
+			eq := false
+			for _, ch := range chain {
+				eq = eq || had[ch]
+			}
+			if wf && blocked {
+				if !eq {
+					fail("C19/blocked-without-full-hash", fmt.Sprintf("Check(%q) = blocked from %s although none of the %d full hashes it had equals the hash of an enumerated name", st.Host, src, len(had)))
+				}
+			}
+			if wf && err == nil && pan == nil && !eq {
+				for d := range had {
+					if c19SplicedOf(d, chain) {
+						classes["spliced-hash-"+map[bool]string{true: "fresh", false: "cached"}[asked]] = true
+						nontrivial = true
+					}
+				}
+			}
 			// Monitor: verdict.
 			if st.Fail && asked {
 				if err == nil || blocked {
@@ -546,10 +715,6 @@ func c19Run(out *vfOut, h c19Hist, forced []string) {
 					}
 				}
 				if want != blocked {
-					src := "fresh lookup"
-					if !asked {
-						src = "cache"
-					}
 					fail("C19/verdict-"+strings.ReplaceAll(src, " ", "-"), fmt.Sprintf("Check(%q) = %v from %s, database says %v", st.Host, blocked, src, want))
 				}
 			}
@@ -584,6 +749,9 @@ func c19Run(out *vfOut, h c19Hist, forced []string) {
 			}
 			if wc.stray > 0 {
 				fail("C19/harness-stray-eviction", "the cache evicted entries outside a Set")
+			}
+			if wc.bad != "" {
+				fail("C19/cache-bytes", wc.bad)
 			}
 			// Classes.
 			if err == nil {
@@ -661,16 +829,20 @@ func c19Run(out *vfOut, h c19Hist, forced []string) {
 			for _, ev := range wc.events {
 				var evs []string
 				for _, k := range ev.evicted {
-					evs = append(evs, vfBytes(k))
+					evs = append(evs, c19B(k))
 				}
-				sets = append(sets, vfPair(vfPair(vfBytes(ev.key), vfList("list N", evs)), vfBool(ev.stored)))
+				sets = append(sets, vfPair(vfPair(c19B(ev.key), vfList("list N", evs)), vfBool(ev.stored)))
 			}
-			ops = append(ops, vfApp("CCheck", vfBytes(st.Host), vfBool(st.Fail),
+			ops = append(ops, vfApp("CCheck", c19B(st.Host), vfBool(st.Fail),
 				vfList("list N * list (list N) * bool", sets),
-				vfBool(blocked), vfBool(err != nil), vfOpt("list N", asked, vfBytes(lastQ)), dump()))
+				vfBool(blocked), vfBool(err != nil), vfOpt("list N", asked, c19B(lastQ)), dump(),
+				vfZ(int64(wc.inner.Stats().Size))))
 		}
 	}
 
+	if wc.bad != "" {
+		fail("C19/cache-bytes", wc.bad)
+	}
 	var shaItems, psItems []string
 	names := make([]string, 0, len(shaTbl))
 	for n := range shaTbl {
@@ -678,7 +850,7 @@ func c19Run(out *vfOut, h c19Hist, forced []string) {
 	}
 	sort.Strings(names)
 	for _, n := range names {
-		shaItems = append(shaItems, vfPair(vfBytes(n), vfBytes(string(c19Sum(n)))))
+		shaItems = append(shaItems, vfPair(c19B(n), c19B(string(c19Sum(n)))))
 	}
 	hostsS := make([]string, 0, len(psTbl))
 	for n := range psTbl {
@@ -687,11 +859,11 @@ func c19Run(out *vfOut, h c19Hist, forced []string) {
 	sort.Strings(hostsS)
 	for _, n := range hostsS {
 		ps, icann := publicsuffix.PublicSuffix(n)
-		psItems = append(psItems, vfPair(vfBytes(n), vfPair(vfBytes(ps), vfBool(icann))))
+		psItems = append(psItems, vfPair(c19B(n), vfPair(c19B(ps), vfBool(icann))))
 	}
 	var dbItems []string
 	for _, s := range h.DB {
-		dbItems = append(dbItems, vfBytes(s))
+		dbItems = append(dbItems, c19B(s))
 	}
 	cls := make([]string, 0, len(classes))
 	for k := range classes {
@@ -699,7 +871,7 @@ func c19Run(out *vfOut, h c19Hist, forced []string) {
 	}
 	sort.Strings(cls)
 	out.Emit(vfCase{
-		Coq: vfApp("Case", vfBytes(h.Suffix), vfZ(c19CacheTimeSec),
+		Coq: vfApp("Case", c19B(h.Suffix), vfZ(c19CacheTimeSec), vfZ(int64(h.CacheSize)),
 			vfList("list N * list N", shaItems),
 			vfList("list N * (list N * bool)", psItems),
 			vfList("list N", dbItems),
@@ -756,6 +928,29 @@ func TestVerifC19(t *testing.T) {
 				chk("x.pvt.k12.ma.us"), chk("y.x.pvt.k12.ma.us"), chk("foo.ck"), chk("a.foo.ck"), chk("www.ck"), chk("mail.lan"),
 				chk(""), chk("a."), chk(".com"), chk("a..com"), chk("."), chk("a.b.c.d.")}},
 	}
+	spx := func(a, b string) string { x := c19Splice(a, b); return hex.EncodeToString(x[:]) }
+	prelude = append(prelude,
+		// spliced hashes, fresh path only: prefix of one chain member + the other
+		// 30 bytes of another, both ways and over a chain of three; every check
+		// goes upstream (evictions in between), nothing is blocked
+		c19Hist{Suffix: "sb.dns.adguard.com.",
+			DB: []string{spx("good.org", "www.good.org"), spx("www.good.org", "good.org"),
+				spx("evil.com", "a.b.evil.com"), spx("b.evil.com", "evil.com")},
+			Steps: []c19Step{chk("www.good.org"),
+				{Kind: "evict", Evict: []string{string(c19Sum("good.org")[:2]), string(c19Sum("www.good.org")[:2])}},
+				chk("www.good.org"), chk("a.b.evil.com"),
+				{Kind: "evict", Evict: []string{string(c19Sum("evil.com")[:2]), string(c19Sum("b.evil.com")[:2]), string(c19Sum("a.b.evil.com")[:2])}},
+				chk("b.evil.com")}},
+		// spliced hashes, cached path: the second check of each name is answered
+		// from the entries that hold the spliced hashes; a real hash beside them
+		// still blocks its own name only
+		c19Hist{Suffix: "pc.dns.adguard.com.",
+			DB: []string{spx("good.org", "www.good.org"), spx("www.good.org", "good.org"),
+				spx("evil.com", "a.b.evil.com"), spx("a.b.evil.com", "b.evil.com"), hx("mail.evil.com")},
+			Steps: []c19Step{chk("www.good.org"), chk("www.good.org"), chk("good.org"),
+				chk("a.b.evil.com"), chk("a.b.evil.com"), chk("b.evil.com"), chk("mail.evil.com"), chk("mail.evil.com"),
+				adv(3700), chk("www.good.org"), chk("www.good.org")}},
+	)
 	// The same answers into caches that cannot hold them: three prefixes per
 	// answer, entries of 42 bytes.
 	for _, size := range []uint{45, 60, 100, 130} {
